@@ -81,8 +81,45 @@ def history(rng, arch, nops, name):
             s.meta[l2] = {"x": x, "cacheable": x in cacheable}
     return name, s
 
+def pe_history(rng, nops, name):
+    """the same for a PE module: compressible rules, interpreted unwind codes, epilogs, leaves, errors that depend on
+    the registers (hostile predecessors) and errors that do not (missing data)"""
+    import petruth
+    s = Script("x86", rng.choice(["may", "must"]))
+    prog = petruth.make_program(rng, 6)
+    base = 0x7ff600000000
+    module_pe(s, "M", base, base + 0x400000, base, 0x140000000, prog["table"], prog["uinfos"], prog["text_lo"],
+              prog["text"] if rng.chance(3, 4) else None)
+    lo, nw = 0x7000, 128
+    s.mem("S", [(lo + 8 * i, rng.choice([0, lo + 8 * rng.below(nw), base + 0x1000 + rng.below(0x300), rng.u64()])) for i in range(nw)])
+    s.mem("H", [(lo + 8 * i, rng.choice([lo + 8 * rng.below(nw), base + 0x1000 + rng.below(0x300)])) for i in range(nw) if rng.chance(2, 3)])
+    s.mem("E", [])
+    s.add("new U0"); s.add("add U0 M"); s.add("newcache C0"); s.add("newcache C1")
+    pts = [f.regions[k].begin + off for f in prog["funcs"] for (k, off, ph, i) in petruth.boundaries(f)]
+    pool = [base + a for a in pts] + [base + a + 509 for a in pts[:10]] + [base + 0x10, base + 0xfff]
+    kinds = {}
+    for _ in range(nops):
+        x = rng.choice(pool)
+        if x not in kinds:
+            kinds[x] = rng.choice(["ip", "ra"])
+        kind = kinds[x]
+        addr = x if kind == "ip" else x + 1
+        regs = [rng.choice([lo + 8 * rng.below(nw), lo + 8 * rng.below(nw), rng.u64(), rng.choice(BOUNDARY)]) for _ in range(16)]
+        regs[4] = rng.choice([lo + 8 * rng.below(nw), lo + 8 * rng.below(nw), lo + 8 * rng.below(nw), (1 << 64) - 8 * rng.range(1, 4)])
+        memid = rng.choice(["S", "S", "H", "E"])
+        cache = rng.choice(["C0", "C0", "C1"])
+        rtxt = petruth.script_regs(addr, regs)
+        l1 = s.add("unwind U0 %s %s %s %s %s" % (cache, kind, hx(addr), rtxt, memid), tag="x86:pe:%s:%s" % (kind, memid))
+        s.add("newcache F")
+        l2 = s.add("unwind U0 F %s %s %s %s" % (kind, hx(addr), rtxt, memid))
+        s.meta[l1] = {"twin": l2, "x": x, "cacheable": False}
+        s.meta[l2] = {"x": x, "cacheable": False}
+    return name, s
+
 def generate(rng, tier):
     out = []
+    for i in range(6 if tier == "quick" else 200):
+        out.append(pe_history(rng, rng.range(60, 160), "pehist-%d" % i))
     n = 24 if tier == "quick" else 1200
     for i in range(n):
         arch = "x86" if i % 2 == 0 else "a64"
